@@ -112,7 +112,7 @@ func runC06(c *Ctx) {
 	c.rule("one-consumer", "exactly one `go` statement (in Config, not in a loop) starts the callback loop; the loop starts no goroutine; every call of a handler-typed value lies in the loop function itself", 2)
 	c.rule("fifo", "the callback queue is received from only inside the callback loop; config/error events are constructed only in functions reachable exclusively from the monitor goroutine and sent only through the two submit helpers", 3)
 	c.rule("cbloop-drains", "the callback goroutine returns only after finding the queue empty (no installed version is skipped on shutdown while callbacks keep up)", 1)
-	c.rule("skip-predicate", "a registered handle is called for a new-config event exactly when event.serial > handle.minSerial (truth table over all orderings), and the loop over the handles ends only by exhaustion", 2)
+	c.rule("skip-predicate", "a registered handle is called for a new-config event exactly when event.serial > handle.minSerial (truth table over all orderings), and the loop over the handles ends only by exhaustion", 1)
 	c.rule("catchup-predicate", "the registration arm calls the handle exactly when the registered cfg is non-nil and the registered serial < the last announced serial, with (registered cfg, last announced version) as arguments", 2)
 	c.rule("last-announced", "the last-announced serial/version are assigned the event's serial/newConfig on every path through the new-config arm, and nowhere else", 2)
 	c.rule("call-args", "ordinary handler calls receive (event.oldConfig, event.newConfig) in this order; the global OnNewConfig is called exactly when non-nil and not suppressed, before the registered handles", 3)
@@ -284,18 +284,34 @@ func runC06(c *Ctx) {
 						"evSerial > minSerial", func(e env) bool { return e.I["evSerial"] > e.I["minSerial"] })
 					// ... and every handle is looked at: the loop over the handle list that contains the call ends only by
 					// exhaustion (a `break` where the skip belongs drops every handle registered after a skipped one)
-					cf := ci.Parent()
-					var inner *ssa.BasicBlock
-					for _, h := range loopHeaders(cf) {
-						if (h == ci.Block() || inLoopBody(h, ci.Block())) && (inner == nil || inLoopBody(inner, h)) {
-							if cf == f && !inArm(newArm, h) {
-								continue // the event loop itself
+					// (the loop is around the call itself, or - where the per-handle step is a helper - around the helper's
+					// call site in the event loop)
+					innermost := func(fn *ssa.Function, at *ssa.BasicBlock) *ssa.BasicBlock {
+						var inner *ssa.BasicBlock
+						for _, h := range loopHeaders(fn) {
+							if (h == at || inLoopBody(h, at)) && (inner == nil || inLoopBody(inner, h)) {
+								if fn == f && !inArm(newArm, h) {
+									continue // the event loop itself
+								}
+								inner = h
 							}
-							inner = h
+						}
+						return inner
+					}
+					cf := ci.Parent()
+					var exits []*ssa.BasicBlock
+					loops := 0
+					if inner := innermost(cf, ci.Block()); inner != nil {
+						loops++
+						exits = append(exits, earlyLoopExits(cf, inner, false)...)
+					}
+					if cf != f {
+						if inner := innermost(f, hc.arm); inner != nil {
+							loops++
+							exits = append(exits, earlyLoopExits(f, inner, false)...)
 						}
 					}
-					if inner != nil {
-						exits := earlyLoopExits(cf, inner, false)
+					if loops > 0 {
 						c.check(len(exits) == 0, "skip-predicate", relName(f)+"#every-handle", ci.Pos(), "the loop over the registered handles ends only when the list is exhausted",
 							"the loop over the registered handles can end early: the handles after the one that ends it are never called for this version (a skipped handle must not stop the delivery to the others)")
 					}
